@@ -6,11 +6,13 @@ tree on every run.
 """
 from __future__ import annotations
 
+import os
+
 import ast
 import functools
 from pathlib import Path
 
-REPO = Path("/repo")
+REPO = Path(os.environ.get("VERIF_REPO", "/repo"))
 PKG = REPO / "src" / "stationeers_pytrapic"
 
 
